@@ -1,4 +1,5 @@
 import Ivy.L1.ProofsC03
+import Ivy.L1.TablesAgree
 /-!
 # C03 — property theorem over the L1 loop machine
 
@@ -16,5 +17,20 @@ theorem monitor_accepts (m : Method) (ntimers : Nat) (timerfdAvail pwait2 : Bool
     (evs : List Ev) (s' : St) (h : Exec (St.init m ntimers timerfdAvail pwait2) evs s') :
     Ivy.Mon.C03.verdict evs = none :=
   Ivy.L1.ProofsC03.monitor_accepts m ntimers timerfdAvail pwait2 evs s' h
+
+/-- T-gen (finite tables, re-checked against /repo's current code on every run): the event→band lines of
+`iv_fd_epoll_poll` and `iv_fd_epoll_timerfd_poll` are `bandsOfKEv` on all 16 kernel answers -/
+theorem epoll_event_band_table_agrees :
+    (∀ r ∈ Ivy.Generated.Tables.epollEventBand, Ivy.L1.TablesAgree.evRowOk r) ∧
+    (∀ r ∈ Ivy.Generated.Tables.epollTimerfdEventBand, Ivy.L1.TablesAgree.evRowOk r) ∧
+    (∀ ev : KEv, Ivy.L1.TablesAgree.evRowOf ev ∈ Ivy.Generated.Tables.epollEventBand ∧
+      Ivy.L1.TablesAgree.evRowOf ev ∈ Ivy.Generated.Tables.epollTimerfdEventBand) :=
+  Ivy.L1.TablesAgree.epoll_event_band_table_agrees
+
+/-- T-gen: `iv_fd_poll_activate_fds` is `bandsOfKEv` on all 16 kernel answers -/
+theorem poll_event_band_table_agrees :
+    (∀ r ∈ Ivy.Generated.Tables.pollEventBand, Ivy.L1.TablesAgree.evRowOk r) ∧
+    (∀ ev : KEv, Ivy.L1.TablesAgree.evRowOf ev ∈ Ivy.Generated.Tables.pollEventBand) :=
+  Ivy.L1.TablesAgree.poll_event_band_table_agrees
 
 end Ivy.Props.C03
